@@ -144,9 +144,9 @@ package bufiox
 
 //@ extern github.com/bytedance/gopkg/lang/mcache.Free
 //@   params buf
-//@   requires region(buf).$pool == 1
-//@   ensures region(buf).$pool == 2
-//@   assigns region(buf).$pool
+//@   requires cap(buf) == 0 || region(buf).$pool == 1
+//@   ensures cap(buf) > 0 ==> region(buf).$pool == 2
+//@   assigns cap(buf) > 0 ==> region(buf).$pool
 
 // DefaultReader. The unread stream $u of a DefaultReader is the window of the source's stream
 // array that starts at the first buffered-but-unread byte: the buffered bytes buf[ri:] are
